@@ -13,6 +13,7 @@ package harness
 import (
 	"fmt"
 	"os"
+	"sync"
 	"runtime/debug"
 	"sort"
 	"strings"
@@ -60,7 +61,12 @@ func (r TxResult) Kind() string {
 	return "ok"
 }
 
+// NewElysApp normalises the package variable version.Version ("v" prefix) on first use: worlds are built from
+// parallel goroutines, so the first application is built alone (afterwards the variable is only read).
+var worldWarmUp sync.Once
+
 func NewWorld(t *testing.T) *World {
+	worldWarmUp.Do(func() { _ = elysapp.InitElysTestApp(true, t) })
 	app := elysapp.InitElysTestApp(true, t)
 	if _, err := app.Commit(); err != nil {
 		t.Fatalf("commit genesis block: %v", err)
